@@ -12,6 +12,7 @@ import (
 
 	"verifharness/concw"
 	"verifharness/dbsim"
+	"verifharness/hookctl"
 	"verifharness/vkit"
 )
 
@@ -28,7 +29,20 @@ func TestVerif_Histories(t *testing.T) {
 	r := vkit.Start(t, "C07", "histories", "exploration", rule)
 	r.Assume("Next is called with monotonically newer snapshots, none older than the table revision at which the iterator was created", "iterators are kept reachable while open", "a deletion is identified by its revision window (revision before, revision after] of the deleting operation")
 	r.Require("change_stream_checks", "commits")
-	dbsim.BubbleCases(t, r, vkit.N(2000, 100000), opts, func(s *dbsim.Sim) bool { return s.ChangeChecks() >= 5 })
+	ctl := hookctl.Install(vkit.Seed())
+	defer ctl.Uninstall()
+	var monitors sync.Map
+	ctl.OnPoint(func(point, handle string) {
+		if f, ok := monitors.Load(handle); ok {
+			f.(func(string, string))(point, handle)
+		}
+	})
+	o := opts
+	o.OnSim = func(s *dbsim.Sim) func() {
+		monitors.Store(s.Handle, s.RegistrationMonitor(ctl)) // table registrations run into some of the commits
+		return func() { monitors.Delete(s.Handle) }
+	}
+	dbsim.BubbleCases(t, r, vkit.N(2000, 100000), o, func(s *dbsim.Sim) bool { return s.ChangeChecks() >= 5 })
 	r.Finish()
 }
 
@@ -158,5 +172,92 @@ func TestVerif_Observable(t *testing.T) {
 		r.Count("events_observed", int64(events))
 		r.Case(h.Sum(), events >= 5)
 	}
+	r.Finish()
+}
+
+// Fault enumeration of the commit window: the committer is paused at each hook point inside Commit while a consumer whose
+// iterator is exhausted calls Next with a fresh snapshot. Whatever Next answers, the consumer must not miss the change: either the
+// change is delivered, or the returned channel is closed once the committer has finished (no further commit happens).
+func TestVerif_NextInCommitWindow(t *testing.T) {
+	r := vkit.Start(t, "C07", "commit-window", "exploration", "committer paused at commit.beforeRootLock / rootLocked / afterRootStore / afterNotify / afterUnlock while a consumer with an exhausted iterator calls Next(fresh snapshot): "+
+		"either the pending change is delivered or the channel returned by Next closes once the commit has finished, and the following Next delivers it; non-trivial = pause point reached; distinct = (point, round)")
+	r.Require("pause_points_reached")
+	ctl := hookctl.Install(vkit.Seed())
+	defer ctl.Uninstall()
+	pts := []string{"commit.beforeRootLock", "commit.rootLocked", "commit.afterRootStore", "commit.afterNotify", "commit.afterUnlock"}
+	rounds := vkit.N(20, 400)
+	idx := 0
+	for round := 0; round < rounds; round++ {
+		for _, p := range pts {
+			idx++
+			if r.Violations() >= 3 {
+				continue
+			}
+			db := statedb.New()
+			tbl := concw.NewTables(db, "w", 1)[0]
+			w0 := db.WriteTxn(tbl)
+			tbl.Insert(w0, &concw.Row{ID: "a", V: 1})
+			it, _ := tbl.Changes(w0)
+			w0.Commit()
+			// drain: the iterator is exhausted and holds an open channel
+			for k := 0; k < 5; k++ {
+				seq, wch := it.Next(db.ReadTxn())
+				for range seq {
+				}
+				select {
+				case <-wch:
+					continue
+				default:
+				}
+				break
+			}
+			h := fmt.Sprintf("CW%d", idx)
+			pa := ctl.PauseAt(h, p)
+			done := make(chan struct{})
+			go func() {
+				defer close(done)
+				w := db.NewHandle(h).WriteTxn(tbl)
+				tbl.Insert(w, &concw.Row{ID: "b", V: 2})
+				w.Commit()
+			}()
+			if !pa.WaitPaused(20 * time.Second) {
+				r.Violation("stuck/"+p, idx, map[string]any{"message": "committer never reached " + p})
+				pa.Resume()
+				continue
+			}
+			r.Count("pause_points_reached", 1)
+			seq, wch := it.Next(db.ReadTxn())
+			got := false
+			for ch := range seq {
+				if ch.Object.ID == "b" {
+					got = true
+				}
+			}
+			pa.Resume()
+			<-done
+			if !got {
+				select {
+				case <-wch:
+				case <-time.After(5 * time.Second):
+					r.Violation("missed-wakeup/"+p, idx, map[string]any{"message": fmt.Sprintf("Next (called while the committer was at %s) delivered nothing and the channel it returned is still open 5 s after the commit finished: a consumer waiting on it misses the change", p)})
+					it.Close()
+					continue
+				}
+				seq, _ = it.Next(db.ReadTxn())
+				for ch := range seq {
+					if ch.Object.ID == "b" {
+						got = true
+					}
+				}
+				if !got {
+					r.Violation("change-lost/"+p, idx, map[string]any{"message": "the change committed during the window was never delivered"})
+				}
+			}
+			it.Close()
+			r.Seen("points", p)
+			r.Case(vkit.NewHash().Str(p).Int(int64(round)).Sum(), true)
+		}
+	}
+	r.Sample(map[string]any{"points": pts, "rounds": rounds})
 	r.Finish()
 }
